@@ -471,7 +471,14 @@ class Array:
             except StopIteration:  # empty iterable, nothing to append
                 return
             array = self._checkarrayforappend(firstarray)
-            array.tofile(str(self._datapath))
+            try:
+                array.tofile(str(self._datapath))
+                if self._datapath.stat().st_size != array.nbytes:
+                    raise OSError("could not write all data to file")
+            except Exception as exception:
+                os.truncate(self._datapath, 0)  # array is still empty
+                raise AppendDataError(f"{exception}\nAppending of data did "
+                                      f"not succeed.")
             self._update_len(lenincrease=array.shape[0])
         with self._open_array() as (v, fd):
             oldshape = v.shape
